@@ -22,24 +22,23 @@ from .common import MANAGER, loc, need
 MIN_OBLIGATIONS = 30
 
 
-def handler_sites(func):
-    """CFG nodes that run handler code: a call of the handler loop variable (dispatcher) or next/send/throw on a
-    task generator (stepper)."""
+def handler_sites(func, repo=None):
+    """CFG nodes that run handler code: in the dispatcher a call of the handler loop variable (or of a helper that is
+    handed the loop variable and calls it); in the stepper next/send/throw on a task generator."""
     g = func.cfg()
     out = []
     if func.name == '_dispatcher':
-        for n in g.nodes:
-            if n.kind == 'for' and isinstance(n.ast.target, ast.Name):
-                v = n.ast.target.id
-                out += [m for m in g.nodes if m.kind in ('stmt', 'test') and any(call_name(c) == v for c in pat.node_calls(m))]
-    else:
-        for m in g.nodes:
-            if m.kind in ('stmt', 'test'):
-                for c in pat.node_calls(m):
-                    nm = call_name(c) or ''
-                    if nm == 'next' or nm.split('.')[-1] in ('send', 'throw') and not nm.startswith('self.'):
-                        out.append(m)
-                        break
+        from .common import dispatcher_loop
+        _loop, _v, sites, _helper = dispatcher_loop(repo or func.module.repo, func)
+        return sites
+    for m in g.nodes:
+        if m.kind in ('stmt', 'test'):
+            for c in pat.node_calls(m):
+                nm = call_name(c) or ''
+                if nm == 'next' or nm.split('.')[-1] in ('send', 'throw') and not nm.startswith('self.') or (
+                        func.name != 'processTask' and nm in func.params):
+                    out.append(m)
+                    break
     return out
 
 
@@ -80,8 +79,20 @@ def run(repo, chk):
 
 
 def rule_a_b(chk, f, ev):
+    from .common import invocation_context
+    f0 = f
+    f, inner = invocation_context(f.module.repo, f)
+    if f is not f0:
+        chk.touch(f)
+        # the helper receives the event as one of its parameters
+        ev = f.params[1] if len(f.params) > 1 else ev
+        for c in calls_in(f0.node):
+            if isinstance(c.func, ast.Attribute) and c.func.attr == f.name:
+                for i, a_ in enumerate(c.args):
+                    if src(a_) == f0.params[1] and i + 1 < len(f.params):
+                        ev = f.params[i + 1]
     g = f.cfg()
-    sites = handler_sites(f)
+    sites = inner if inner is not None else handler_sites(f)
     need(sites, f'C04.a: no handler invocation site in {f.ref}')
     clauses = []
     for s in sites:
@@ -223,10 +234,15 @@ def rule_d(repo, chk, d, t, e):
                discr='success-requested')
     chk.ob('d', e.ref, '<name>_success is fired from exactly one site', len(succ) == 1, loc(e, e.node), discr='success-once')
     # every path through a catch-all clause records the failure (directly, or by telling _eventDone about the error)
+    from .common import invocation_context
     for f in (d, t):
         gf = f.cfg()
         fev = f.params[1]
         sites = handler_sites(f)
+        cf, inner = invocation_context(f.module.repo, f)
+        if cf is not f:
+            # the catch-all lives in a helper: the helper must hand the error back and the dispatcher must keep it (checked below)
+            continue
         seen_clauses = []
         for s_ in sites:
             ca = catch_all_clause(gf, s_)
@@ -260,12 +276,17 @@ def rule_d(repo, chk, d, t, e):
             if ok:
                 ev_ = src(c.args[1])
                 sites = handler_sites(f)
-                ca = catch_all_clause(gf, sites[0]) if sites else None
-                assigned = ca is not None and any(ev_ in Q.node_defs(n2) and 'exc_info' in src(n2.ast) for n2 in pat.region(gf, 'except', ca.ast)
-                                                 if n2.kind == 'stmt')
-                inits = [n2 for n2 in gf.nodes if n2.kind == 'stmt' and ev_ in Q.node_defs(n2) and isinstance(n2.ast, ast.Assign)
-                         and pat.is_const(n2.ast.value, None)]
-                reset_in_loop = any(any(k == 'loop' for k, _a in n2.ctx) for n2 in inits)
+                cf, _inner = invocation_context(f.module.repo, f)
+                if cf is f:
+                    ca = catch_all_clause(gf, sites[0]) if sites else None
+                    assigned = ca is not None and any(ev_ in Q.node_defs(n2) and 'exc_info' in src(n2.ast) for n2 in pat.region(gf, 'except', ca.ast)
+                                                     if n2.kind == 'stmt')
+                else:
+                    assigned = any(ev_ in Q.node_defs(n2) for n2 in sites)
+                # the error must survive the remaining handlers: inside the loop it is only ever (re)bound by the catch-all clause
+                rebinds = [n2 for n2 in gf.nodes if n2.kind in ('stmt', 'for') and ev_ in Q.node_defs(n2) and any(k == 'loop' for k, _a in n2.ctx)
+                           and not any(k == 'except' for k, _a in n2.ctx)]
+                reset_in_loop = bool(rebinds)
                 ok = assigned and not reset_in_loop
             chk.ob('d', f.ref, 'the dispatcher hands the error caught in its catch-all clause to _eventDone (not reset between handlers)',
                    ok, loc(f, c), detail=f'`{src(c)}`', discr='dispatcher-err')
@@ -329,6 +350,8 @@ def rule_f(chk, d, t):
         rv = None
         if isinstance(s.ast, ast.Assign) and isinstance(s.ast.targets[0], ast.Name):
             rv = s.ast.targets[0].id
+        elif isinstance(s.ast, ast.Assign) and isinstance(s.ast.targets[0], ast.Tuple) and isinstance(s.ast.targets[0].elts[0], ast.Name):
+            rv = s.ast.targets[0].elts[0].id    # (value, err) handed back by a helper
         need(rv, 'C04.f: handler result is not bound to a local')
         gen_nodes = [n for n in g.nodes if n.kind == 'stmt' and any(True for _r, _c in pat.method_calls(n.ast, 'registerTask'))]
 
